@@ -1613,6 +1613,7 @@ func runReplay(file string, c02, c09 bool) {
 			must(fmt.Errorf("replay universe is not in String() order at %d", i))
 		}
 	}
+	chanCap = len(sc.univ) + 16 // the lookups send while holding the lock: the channel must hold a whole result
 	w := newWorld(sc)
 	out := histOut{Kind: "hist", Idx: 0, Names: sc.nNames, Pools: sc.jPools(), PagesBad: []pageBad{}}
 	out.Universe, out.Strs = sc.jUniverse()
